@@ -42,6 +42,22 @@ def f1_cases():
     return out
 
 
+def launch_fail_family(rng, count):
+    """independent parallelizable tasks under one root, some of which cannot be launched (OSError at spawn):
+    slots peeked for a failed launch must not be lost or duplicated"""
+    out = []
+    for _ in range(count):
+        n = rng.randint(4, 8)
+        tasks = [Task(2, list(range(1, n + 1)), rng.choice(["group", "command", "combine"]), False)]
+        for i in range(n):
+            tasks.append(Task(2, [], rng.choice(["command", "experiment"]), rng.random() < 0.85, pkg=rng.choice(["", "p0"])))
+        rng.shuffle(tasks[0].deps)
+        lf = rng.sample(range(1, n + 1), rng.randint(1, 2))
+        out.append(Case(tasks, jobs=rng.choice([2, 2, 3, 4]), stop=rng.random() < 0.15, launch_fail=lf,
+                        rcs=[0] * (n + 1), picks=[rng.randrange(4) for _ in range(n + 2)]))
+    return out
+
+
 def gen_for(prop, chk, tier):
     rng = chk.rng
     n = {"quick": 500, "thorough": 6000}[tier]
@@ -53,6 +69,7 @@ def gen_for(prop, chk, tier):
                 cases.append(Case([Task(t.status, t.deps, t.kind) for t in tasks], root=root))
         cases += [rand_case(rng, nmax=8, defects=0.7, fail=0.0, stop=0.0) for _ in range(n)]
     elif prop == "C03":
+        cases += launch_fail_family(rng, n // 10)
         cases += [rand_case(rng, fail=0.85, stop=0.4) for _ in range(n)]
     elif prop == "C04":
         cs = [rand_case(rng, fail=0.2) for _ in range(n)]
@@ -62,9 +79,60 @@ def gen_for(prop, chk, tier):
                 if t.kind in ("command", "experiment"):
                     t.par = rng.random() < 0.7
         cases += cs
+        cases += launch_fail_family(rng, n // 4)
+    elif prop == "C09":
+        cases += launch_fail_family(rng, n // 10)
+        cases += [rand_case(rng) for _ in range(n)]
     else:
         cases += [rand_case(rng) for _ in range(n)]
     return cases
+
+
+def real_failures(chk, rounds):
+    """real children (the fake process layer cannot show how a signal death is reported): a task that
+    exits non-zero, one that is killed by a signal, their dependents and an independent task"""
+    import os
+    import implrun
+    from implrun import strip_ansi
+
+    for r in range(rounds):
+        how = ["exit 3", "kill -KILL $$", "kill -SEGV $$", "kill -TERM $$"][r % 4]
+        jobs = [None, "2"][r % 2]
+        par = jobs is not None
+        mark = "touch $COND_OUT/ran"
+        cond = (
+            'run_experiment(name="k", run=%r, parallelizable=%s)\n' % (how, par)
+            + 'run_command(name="dep", run=%r, deps=[":k"], parallelizable=%s)\n' % (mark, par)
+            + 'run_command(name="ind", run=%r, parallelizable=%s)\n' % (mark, par)
+            + 'run_command(name="top", run=%r, deps=[":dep", ":ind"])\n' % mark
+        )
+        root = implrun.make_project({"COND": cond})
+        argv = ["run", "//:top"] + (["-j", jobs] if jobs else [])
+        res = implrun.run_cond(argv, root, timeout=60)
+        chk.coverage["evaluations"] += 1
+        text = strip_ansi(res.out + res.err)
+        ran = {n: os.path.exists(os.path.join(root, "cond-out", n + ".task", "ran")) for n in ("dep", "ind", "top")}
+        rows = implrun.index_rows(root)
+        failed_sec = text.split("Failed task(s):")[-1].split("Skipped task(s)")[0] if "Failed task(s):" in text else ""
+        skipped_sec = text.split("Skipped task(s)")[-1] if "Skipped task(s)" in text else ""
+        problems = []
+        if res.code != 1:
+            problems.append("cond run exited %s although task //:k failed (%s)" % (res.code, how))
+        if ran["dep"] or ran["top"]:
+            problems.append("dependents of the failed task were executed: %s" % ran)
+        if not ran["ind"]:
+            problems.append("the independent task //:ind was not executed")
+        if "//:k" not in failed_sec or "//:dep" not in skipped_sec or "//:top" not in skipped_sec:
+            problems.append("the report does not name //:k as failed and //:dep, //:top as skipped: %r" % text[-400:])
+        if rows:
+            problems.append("a version was recorded for the failed task: %s" % rows)
+        for msg in problems:
+            chk.violation("impl-violation", "real processes, task fails by `%s`%s: %s" % (how, " (-j2)" if par else "", msg),
+                          {"input": {"cond": cond, "argv": argv}, "impl_observation": {"exit": res.code, "output": text[-1500:], "ran": ran, "rows": rows}, "oracle_verdict": msg},
+                          match_key={"real": how}, size=4)
+        if not problems:
+            chk.coverage["traces_validated_against_impl"] += 1
+        chk.count("real", how)
 
 
 def run_prop(prop, tier, seed, replay=None, extra_oracles=()):
@@ -75,7 +143,28 @@ def run_prop(prop, tier, seed, replay=None, extra_oracles=()):
         replay_case(chk, replay, oracles)
         return chk.finish()
     chk.coverage["rule"] = RULES["C01"].replace("C01", prop)
-    run_cases(chk, gen_for(prop, chk, tier), oracles)
+    cases = gen_for(prop, chk, tier)
+    if prop == "C04":
+        # a nested invocation: cond runs inside a task of an outer `cond run -jN`, so COND_SLOT is inherited
+        import os
+
+        saved = os.environ.get("COND_SLOT")
+        os.environ["COND_SLOT"] = "9"
+        try:
+            run_cases(chk, cases[: len(cases) // 4], oracles)
+        finally:
+            if saved is None:
+                os.environ.pop("COND_SLOT", None)
+            else:
+                os.environ["COND_SLOT"] = saved
+        cases = cases[len(cases) // 4:]
+    run_cases(chk, cases, oracles)
+    if prop == "C03":
+        real_failures(chk, 4 if tier == "quick" else 24)
+    if prop == "C09":
+        from reaper_util import reaper_scenarios
+
+        reaper_scenarios(chk, tier)
     if tier == "thorough":
         chk.run_coqchk()
     return chk.finish()
